@@ -52,7 +52,7 @@ def run(ctx):
         gens = [("MergeGen_tiny.cfg", "tiny", None, None, None), ("MergeGen_small.cfg", "small", None, None, 2500),
                 ("MergeSim.cfg", "sim", "num=400", 9, 2500)]
         nrandom = 2500
-    jobs = [(lambda c=c: tlc.run("Merge", c, tag="c19mc" + c[8:-4], timeout=12000, workers=None if not quick else 6)) for c in mcs]
+    jobs = [(lambda c=c: tlc.run("Merge", c, tag="c19mc" + c[8:-4], timeout=12000, workers=None if not quick else 2)) for c in mcs]
     jobs += [(lambda c=c: tlc.run("Merge", c, expect_violation=True, tag="c19rej" + c[8:-4], timeout=3000, workers=2)) for c in rej]
     jobs += [(lambda g=g: c19run.gen_tlc(ctx.seed, g[0], g[1], g[2], g[3], g[4])) for g in gens]
     out = c19run.parallel(jobs)
